@@ -33,6 +33,8 @@ CORPUS = [
     "(fn [x] (when x (throw (ex-info \"x\" {})) 5))", "(fn [coll] (for [x coll :when (odd? x)] (* x x)))",
     "(fn [o] (operator/contains (.-known o) (.-fresh-id o)))", "(fn [o k] (operator/getitem (.-table o) (.-key k)))",
     "(fn [c] (if c (do (throw (ex-info \"x\" {})) (def dead-x 1)) nil) (def dead-x 2))",
+    "(fn [d k] (operator/delitem d k) d)", "(fn [d k] [(operator/delitem d k) d])", "(fn [d k] (if (operator/delitem d k) 1 2))",
+    "(fn [d k v] [(operator/setitem d k v) d])",
     "(fn [x] (try x (finally 2)))", "(fn [x] (try (x) (finally nil)))", "(fn [x] (do (try (x) (finally (if x 1 2))) 3))",
 ]
 
@@ -88,7 +90,12 @@ def capture_pairs():
             for opts in (None, _lmap.map({_kw.keyword("inline-functions"): False})):
                 ctx = cc.CompilerContext("<c15>", opts=opts)
                 for form in rd.read_str(src):
-                    cc.compile_and_exec_form(form, ctx, ns)
+                    try:
+                        cc.compile_and_exec_form(form, ctx, ns)
+                    except Exception:
+                        # the (before, after) pair was captured before compile(); a tree compile() rejects is
+                        # reported by the validator as invalid-ast, not here
+                        pass
     O.PythonASTOptimizer.visit = orig
     return pairs, OPERATOR_ALIAS, failed, time.time() - t0
 
@@ -122,6 +129,9 @@ def synthetic_pairs(alias):
         "if-empty-else": "if t:\n    r = g()\nelse:\n    None\n",
         "global-dedupe": "def f():\n    global a\n    a = 1\n    global a, b\n    b = 2\n    global a\n    return a\n",
         "nested-functions-globals": "def f():\n    global a\n    def g():\n        global a\n        a = 2\n    a = 1\n    global a\n",
+        "delitem-statement": f"{alias}.delitem(a, b)\nr = a\n",
+        "delitem-statement-calls": f"{alias}.delitem(f(), g())\n",
+        "delitem-in-expression": f"r = [{alias}.delitem(a, b), a]\n",
         "handler-dead": "try:\n    a()\nexcept E as e:\n    return b()\n    c()\n",
     }
     for k, v in stmts.items():
